@@ -318,7 +318,9 @@ class MethodEngine(Engine):
     return 0
 
   def corpus(self):
-    return [{'reject': r, 'api': a, 'scoped': s} for r in (False, True) for a in ('register', 'external') for s in (False, True)]
+    return [{'reject': r, 'api': a, 'scoped': s}
+            for r in (False, True, 'bad-allow', 'bad-deny', 'both', 'nonlist', 'bad-name', 'locked')
+            for a in ('register', 'external') for s in (False, True)]
 
   def gen(self, rng, tier):
     return self.corpus()[0]
@@ -336,7 +338,11 @@ class MethodEngine(Engine):
     K.meth.__qualname__ = 'K.meth'
     gin.register(K.meth)
     before = sorted(k for k, _ in cfg._REGISTRY.items())  # pylint: disable=protected-access
-    kw = {'denylist': ['a']} if case['reject'] else {}
+    kw = {False: {}, True: {'denylist': ['a']}, 'bad-allow': {'allowlist': ['nope']}, 'bad-deny': {'denylist': ['nope']},
+          'both': {'allowlist': ['a'], 'denylist': ['a']}, 'nonlist': {'allowlist': 'a'}, 'bad-name': {'module': 'bad module'},
+          'locked': {}}[case['reject']]
+    if case['reject'] == 'locked':
+      gin.finalize()
     try:
       if case['api'] == 'register':
         gin.register(**kw)(K)
@@ -348,10 +354,17 @@ class MethodEngine(Engine):
     after = sorted(k for k, _ in cfg._REGISTRY.items())  # pylint: disable=protected-access
     obs = [exc, [k for k in after if k not in before]]
     if case['reject']:
-      if exc != 'ValueError':
+      if exc is None:
+        fails.append(('invalid-class-registration-accepted', repr(case['reject'])))
+      elif case['reject'] is True and exc != 'ValueError':
         fails.append(('required-denylisted-class-accepted', repr(exc)))
       if after != before:
-        fails.append(('rejected-registration-changed-registry', 'registry before %r after %r' % (before, after)))
+        fails.append(('rejected-registration-changed-registry', '%r: registry before %r after %r' % (case['reject'], before, after)))
+      if case['reject'] != 'locked':
+        try:
+          gin.bind_parameter('mm.meth.x', 3)      # the separately registered method is still addressable as before
+        except Exception as e:  # pylint: disable=broad-except
+          fails.append(('rejected-registration-lost-method', '%s: %s' % (type(e).__name__, str(e)[:120])))
     else:
       if exc is not None:
         fails.append(('valid-class-rejected', exc))
